@@ -87,4 +87,9 @@ var (
 		ModuleName, 23,
 		"the block height to complete the unelegation is invalid",
 	)
+
+	ErrUndelegationRecordExists = errorsmod.Register(
+		ModuleName, 24,
+		"an undelegation record with the same key already exists",
+	)
 )
